@@ -10,19 +10,19 @@ let read_file (path : string) : string =
 
 let rec json_of_pobj (b : Buffer.t) (o : pobj) : unit =
   match o with
-  | PNull -> Buffer.add_string b "null"
-  | PBool true -> Buffer.add_string b "true"
-  | PBool false -> Buffer.add_string b "false"
-  | PInt z -> Buffer.add_string b (string_of_int (int_of_z z))
-  | PReal sp -> Buffer.add_string b ("{\"r\":\"" ^ string_of_bytes sp ^ "\"}")
-  | PStr s -> Buffer.add_string b ("{\"s\":\"" ^ (let h = hexbytes s in if h = "-" then "" else h) ^ "\"}")
-  | PName n -> Buffer.add_string b ("{\"n\":\"" ^ (let h = hexbytes n in if h = "-" then "" else h) ^ "\"}")
-  | PRef (n, g) -> Buffer.add_string b (Printf.sprintf "{\"ref\":[%d,%d]}" (int_of_n n) (int_of_n g))
-  | PArr l ->
+  | SpNull -> Buffer.add_string b "null"
+  | SpBool true -> Buffer.add_string b "true"
+  | SpBool false -> Buffer.add_string b "false"
+  | SpInt z -> Buffer.add_string b (string_of_int (int_of_z z))
+  | SpReal sp -> Buffer.add_string b ("{\"r\":\"" ^ string_of_bytes sp ^ "\"}")
+  | SpStr s -> Buffer.add_string b ("{\"s\":\"" ^ (let h = hexbytes s in if h = "-" then "" else h) ^ "\"}")
+  | SpName n -> Buffer.add_string b ("{\"n\":\"" ^ (let h = hexbytes n in if h = "-" then "" else h) ^ "\"}")
+  | SpRef (n, g) -> Buffer.add_string b (Printf.sprintf "{\"ref\":[%d,%d]}" (int_of_n n) (int_of_n g))
+  | SpArr l ->
     Buffer.add_char b '[';
     List.iteri (fun i x -> if i > 0 then Buffer.add_char b ','; json_of_pobj b x) l;
     Buffer.add_char b ']'
-  | PDict d ->
+  | SpDict d ->
     Buffer.add_string b "{\"d\":[";
     List.iteri (fun i (k, v) -> if i > 0 then Buffer.add_char b ',';
                  Buffer.add_string b ("[\"" ^ (let h = hexbytes k in if h = "-" then "" else h) ^ "\",");
@@ -36,7 +36,7 @@ let strict_result (data : string) : string =
     let b = Buffer.create 65536 in
     Buffer.add_string b (Printf.sprintf "{\"ok\":true,\"version\":\"%s\",\"xref_stream\":%b,\"sections\":%d,\"startxref\":%d,\"trailer\":"
                            (string_of_bytes f.sf_version) f.sf_xref_stream (int_of_n f.sf_sections) (int_of_n f.sf_startxref));
-    json_of_pobj b (PDict f.sf_trailer);
+    json_of_pobj b (SpDict f.sf_trailer);
     Buffer.add_string b ",\"objects\":[";
     List.iteri (fun i o ->
         if i > 0 then Buffer.add_char b ',';
